@@ -23,9 +23,14 @@ def check(rep, tier, rng):
     cases = sup + oos + mut + [{"text": t, "kind": "golden"} for t in t3.golden_inputs()]
     texts = [c["text"] for c in cases]
     res = t3.run_texts(texts)
-    gen = run_lines([t3.FRONT], ["gen d " + t3.hx(t) for t in texts])
+    greqs = ["gen d " + t3.hx(t) for t in texts]
+    gen = run_lines([t3.FRONT], greqs)
+    gen_model = run_driver(greqs)
     tie_breaks, nviol, distinct, kinds, outcomes = [], 0, set(), {}, {}
-    for c, (impl, model), g in zip(cases, res, gen):
+    import t1
+    for c, (impl, model), g, gm in zip(cases, res, gen, gen_model):
+        if not t1.same_gen(g, gm)[0]:
+            tie_breaks.append((c, g[:200], gm[:200]))
         kinds[c["kind"]] = kinds.get(c["kind"], 0) + 1
         cls = impl.split(" ")[0]
         outcomes["ast:" + cls] = outcomes.get("ast:" + cls, 0) + 1
@@ -50,13 +55,13 @@ def check(rep, tier, rng):
             rep.violation({"kind": "rejected-text-not-err", "text": c["text"], "ast": impl, "generate": g})
     rep.cov.update({"evaluations": 2 * len(cases), "distinct_nontrivial": len(distinct), "input_kinds": kinds, "outcomes": outcomes,
                     "traces_validated_against_impl": len(cases) - len(tie_breaks),
-                    "rule": "supported-subset specifications (2 layouts each), grammar-valid out-of-subset constructs (13 kinds), 1-2 token-level mutations "
+                    "rule": "supported-subset specifications (2 layouts each), grammar-valid out-of-subset constructs (16 kinds), 1-2 token-level mutations "
                             "of both and of the repository's golden inputs; each text through Ast::new (compared with the model's outcome and panic site) and "
                             "Generator::generate; distinct = distinct (outcome class, generate class, construct kind, panic site)",
                     "samples": [{"text": c["text"][:300], "ast": i[:120], "generate": g[:60]} for c, (i, m), g in list(zip(cases, res, gen))[:: max(1, len(cases) // 6)]][:6]})
     if tie_breaks and nviol == 0:
         c, impl, model = tie_breaks[0]
-        rep.violation({"kind": "tie-T3-broken", "tie": "T3 Ast::new outcome vs Fx.Ast.new", "first_difference": {"text": c["text"], "impl": impl, "model": model},
+        rep.violation({"kind": "tie-T3-broken", "tie": "T3/T1 Ast::new and Generator::generate outcome vs the model", "first_difference": {"text": c["text"], "impl": impl, "model": model},
                        "differences": len(tie_breaks)}, found_input=False)
 
 
